@@ -355,6 +355,37 @@ def okChunkProtein (chrom : List Char) (x : CdsD) (c : Win) (ans : Option (List 
     if ans.isNone && (cdsBasesIn x c).isEmpty then true
     else okTranslateCodons (cods.map fun cod => cod.map upper) false 0 true ans
 
+/-! ### clause "codon window on a chunk": `scan_chunk_relative_codon_locations(lo, hi)` -/
+
+/-- the whole-chromosome codons lying fully inside the chunk AND inside the codon window `[lo, hi)` -/
+def innerWindowCodons (x : CdsD) (c : Win) (lo hi : Nat) : List (List Nat) :=
+  (innerCodons x c).filter (fun cod => cod.all (inWin lo hi))
+
+def okChunkWindowCodons (x : CdsD) (c : Win) (lo hi : Nat) (ans : Option (List Location)) : Bool :=
+  match ans with
+  | none => false
+  | some locs => chunkCodonsMatch c x.st (innerWindowCodons x c lo hi) locs
+
+/-- labels of the known deviations on windowed chunk-relative answers (no influence on a verdict) -/
+def chunkWindowClass (x : CdsD) (c : Win) (lo hi : Nat) (answered : Bool) : String :=
+  let ci := x.toIn none
+  let walk := exonWalk ci.loc ci.frames
+  let inBoth (p : Nat) : Bool := inWin c.w.1 c.w.2 p && inWin lo hi p
+  if !answered then
+    if !shallowTrim walk then "deep-trim"
+    else if ci.kept.isEmpty && x.exons.length ≥ 2 then "no-retained-base"
+    else if !(ci.kept.any inBoth) then "window-and-chunk-without-retained-base"
+    else "unclassified"
+  else
+    if (cdsBasesIn x c).isEmpty then "no-base-in-chunk-answers-for-chromosome"
+    else if x.exons.length == 1 && fivePrimeFrame x != some 0 &&
+            ((fivePrime x).map inBoth) == some false then "single-exon-5p-cut"
+    else
+      -- positions (retained ones for a multi-exon CDS, all of them for a single exon) 5' of the window
+      let reading := if x.exons.length == 1 then bases ci.loc else ci.kept
+      let cut5 := (reading.takeWhile (fun p => !(inWin lo hi p))).length
+      if cut5 % 3 != 0 then "window-cuts-5p-on-chunk" else "unclassified"
+
 /-! ### clause "chunk-relative frames" (only for a CDS in ONE uninterrupted reading frame: the documentation of
     `chunk_relative_frames` says programmed frameshifts are lost) -/
 
@@ -380,11 +411,16 @@ def okChunkFrames (x : CdsD) (c : Win) (ans : Option (List Nat)) : Bool :=
 def chunkFramesClass (x : CdsD) (c : Win) : String :=
   let cl := clips (initLoc (x.exons.map (·.1)) x.st) c
   let order := if x.st == .minus then cl.reverse else cl
-  -- the 5'-most in-chunk block is shorter than the offset to the next codon boundary (same root as F-C05h)
+  -- the 5'-most in-chunk block is shorter than the offset to the next codon boundary (same root as F-C05h):
+  -- with `i` CDS positions 5' of the chunk and start frame `f0`, that offset is `f0 - i` while the skipped bases
+  -- are not used up, `(f0 - i) mod 3` afterwards
   match order with
   | b :: _ :: _ =>
-    let before := ((x.toIn none).kept.takeWhile (fun p => !(inWin c.w.1 c.w.2 p))).length
-    if b.2 - b.1 < (3 - before % 3) % 3 then "first-exon-shorter-than-offset" else "unclassified"
+    let raw := bases (x.toIn none).loc
+    let i := (raw.takeWhile (fun p => !(inWin c.w.1 c.w.2 p))).length
+    let f0 := (fivePrimeFrame x).getD 0
+    let o := if i < f0 then f0 - i else (3 - (i - f0) % 3) % 3
+    if b.2 - b.1 < o then "first-exon-shorter-than-offset" else "unclassified"
   | _ => "unclassified"
 
 end BioCantor.Spec.Chunk
